@@ -166,8 +166,10 @@ impl CsdV1 {
 
     /// Returns the card capacity in 512-byte blocks
     pub fn card_capacity_blocks(&self) -> u32 {
-        let multiplier = self.device_size_multiplier() + self.read_block_length() - 7;
-        (self.device_size() + 1) << multiplier
+        // The byte count is at most 4096 << 24, so the block count always
+        // fits. (Subtracting 7 from the shift instead underflows for a
+        // register whose READ_BL_LEN + C_SIZE_MULT is below 7.)
+        (self.card_capacity_bytes() >> 9) as u32
     }
 }
 
